@@ -42,4 +42,7 @@ finally:
 old = json.loads((sd / 'result.json').read_text()) if (sd / 'result.json').exists() else {}
 if 'suite' in old and 'suite' not in res:
     res['suite'] = old['suite']
+# keep the latest run per property (runs against sibling properties accumulate)
+done = {r['property'] for r in res['runs']}
+res['runs'] = [r for r in old.get('runs', []) if r['property'] not in done] + res['runs']
 (sd / 'result.json').write_text(json.dumps(res, indent=1))
